@@ -8,11 +8,13 @@ import (
 	"strconv"
 	"strings"
 	"sync"
+	"sync/atomic"
 	"time"
 
 	"github.com/scrapli/scrapligo/driver/netconf"
 	"github.com/scrapli/scrapligo/driver/opoptions"
 	"github.com/scrapli/scrapligo/driver/options"
+	"github.com/scrapli/scrapligo/logging"
 	"github.com/scrapli/scrapligo/response"
 	"github.com/scrapli/scrapligo/util"
 
@@ -301,6 +303,21 @@ func runSession(s Session, force, header bool) (*sessionOut, *mon.Result) {
 	if s.Via == "preferred" {
 		opts = append(opts, options.WithNetconfPreferredVersion(s.Version))
 	}
+	var logLines, logBytes int64
+	if s.Log != "" {
+		li, lerr := logging.NewInstance(logging.WithLevel(s.Log), logging.WithLogger(func(a ...interface{}) {
+			atomic.AddInt64(&logLines, 1)
+			for _, x := range a {
+				if str, ok := x.(string); ok {
+					atomic.AddInt64(&logBytes, int64(len(str)))
+				}
+			}
+		}))
+		if lerr != nil {
+			return nil, &mon.Result{Verdict: mon.Violated, Key: "c03/harness:logger", Detail: lerr.Error()}
+		}
+		opts = append(opts, options.WithLogger(li))
+	}
 	if force {
 		opts = append(opts, options.WithNetconfForceSelfClosingTags())
 	}
@@ -569,6 +586,18 @@ func runSession(s Session, force, header bool) (*sessionOut, *mon.Result) {
 		if strings.HasPrefix(q.Shape, "commit-") {
 			out.tags[fmt.Sprintf("%s vs hello :confirmed-commit=%v", q.Shape, hasCap(s.Caps, ":confirmed-commit:"))] = true
 		}
+		if s.Log != "" {
+			sz := "<=1024"
+			if len(m.Raw) > 8192 {
+				sz = ">8192"
+			} else if len(m.Raw) > 1024 {
+				sz = ">1024"
+			}
+			out.tags[fmt.Sprintf("logger=%s/%s/frame%s", s.Log, s.Version, sz)] = true
+			if len(m.Raw) > 1024 {
+				out.obs["requests_over_1024B_with_logger_at_"+s.Log]++
+			}
+		}
 		out.tags["op="+opOf(q.Shape)] = true
 		out.tags[fmt.Sprintf("cell=%s/%s/force=%v/header=%v", q.Shape, s.Version, force, header)] = true
 		out.tags[fmt.Sprintf("position=%d", i+1)] = true
@@ -619,6 +648,11 @@ func runSession(s Session, force, header bool) (*sessionOut, *mon.Result) {
 		return nil, r
 	}
 	out.obs["sessions_closed_and_tail_decoded"]++
+	if s.Log != "" {
+		out.obs["sessions_with_logger"]++
+		out.obs["log_lines_received"] += atomic.LoadInt64(&logLines)
+		out.obs["log_bytes_received"] += atomic.LoadInt64(&logBytes)
+	}
 	return out, nil
 }
 
@@ -771,7 +805,7 @@ func Run(s Session) mon.Result {
 			}
 		}
 	}
-	tags := []string{"hello_with_defaults=" + s.WD, fmt.Sprintf("hello_extra_capabilities=%d", len(s.Caps)), "kind=" + s.Kind, "via=" + s.Via, fmt.Sprintf("session_length=%d", len(s.Reqs)), "seg=" + s.Seg.Mode}
+	tags := []string{"logger=" + s.Log, "hello_with_defaults=" + s.WD, fmt.Sprintf("hello_extra_capabilities=%d", len(s.Caps)), "kind=" + s.Kind, "via=" + s.Via, fmt.Sprintf("session_length=%d", len(s.Reqs)), "seg=" + s.Seg.Mode}
 	for t := range main.tags {
 		tags = append(tags, t)
 	}
